@@ -11,8 +11,12 @@ class Schedule:
     """order(n, call_no) -> permutation (execution order); completion(n, call_no) -> permutation
     for imap_unordered.  The default is the identity."""
 
-    def __init__(self, mode='identity', seed=0, sym_prefix='sched'):
+    def __init__(self, mode='identity', seed=0, sym_prefix='sched', workers=None):
         self.mode = mode
+        # number of worker processes the pool is taken to have when the code does not say (None: 16).  It matters
+        # through Pool.map's default chunk size only: ceil(ntasks / (4 * workers)) tasks are pickled together, so
+        # objects shared between the tasks of one chunk stay shared on the worker's side
+        self.workers = workers
         self.seed = seed
         self.calls = 0
         self.log = []
@@ -106,6 +110,7 @@ class SymPool:
     def __init__(self, *a, **k):
         SymPool.instances += 1
         self.closed = False
+        self.processes = (a[0] if a else k.get('processes', k.get('nodes')))
 
     # context manager / lifecycle
     def __enter__(self):
@@ -138,9 +143,18 @@ class SymPool:
                 raise
             return obj
 
-    def _run(self, fn, iterable, what):
+    def _chunksize(self, n, chunksize):
+        if chunksize:
+            return max(1, int(chunksize))
+        w = self.processes or getattr(self.schedule, 'workers', None) or 16
+        c, extra = divmod(n, 4 * int(w))
+        return max(1, c + (1 if extra else 0))
+
+    def _run(self, fn, iterable, what, chunksize=1):
         tasks = list(iterable)
         n = len(tasks)
+        if chunksize > 1 and n > 1:
+            return self._run_chunked(fn, tasks, what, chunksize)
         order = self.schedule.perm(n, what)
         results = [None] * n
         fs = SymPool.fs
@@ -168,8 +182,38 @@ class SymPool:
             SymPool.record.calls.append((what, getattr(fn, '__name__', str(fn)), rec))
         return results, order
 
+    def _run_chunked(self, fn, tasks, what, chunksize):
+        """Pool.map's batching: consecutive tasks travel to a worker in one pickle (shared references inside a chunk
+        survive), the worker runs them in order, the results come back in one pickle.  The schedule orders the chunks."""
+        n = len(tasks)
+        chunks = [list(range(i, min(n, i + chunksize))) for i in range(0, n, chunksize)]
+        order = self.schedule.perm(len(chunks), what)
+        results = [None] * n
+        fs = SymPool.fs
+        rec = []
+        for c in order:
+            idxs = chunks[c]
+            a0 = len(fs.audit) if fs is not None else 0
+            r0 = len(fs.reads) if fs is not None else 0
+            args = self._cross([tasks[i] for i in idxs])
+            outs = []
+            for i, arg in zip(idxs, args):
+                try:
+                    outs.append((True, fn(arg)))
+                except Exception as e:      # noqa
+                    outs.append((False, e))
+            good = self._cross([o[1] if o[0] else None for o in outs])
+            for i, o, gval in zip(idxs, outs, good):
+                results[i] = (True, gval) if o[0] else o
+            if fs is not None:
+                rec.append((idxs[0], [p for op, p in fs.audit[a0:]], list(fs.reads[r0:])))
+        if SymPool.record is not None:
+            SymPool.record.calls.append((what, getattr(fn, '__name__', str(fn)), rec))
+        return results, order
+
     def map(self, fn, iterable, chunksize=None):
-        results, _ = self._run(fn, iterable, 'map')
+        tasks = list(iterable)
+        results, _ = self._run(fn, tasks, 'map', self._chunksize(len(tasks), chunksize))
         out = []
         for ok, val in results:
             if not ok:
@@ -178,7 +222,7 @@ class SymPool:
         return out
 
     def imap(self, fn, iterable, chunksize=None):
-        results, _ = self._run(fn, iterable, 'imap')
+        results, _ = self._run(fn, iterable, 'imap', max(1, int(chunksize or 1)))
         return _Lazy(results)
 
     def imap_unordered(self, fn, iterable, chunksize=None):
@@ -188,12 +232,86 @@ class SymPool:
 
     # pathos spellings
     uimap = imap_unordered
+    amap = map
 
     def starmap(self, fn, iterable):
         return self.map(lambda a: fn(*a), iterable)
 
     def apply(self, fn, args=(), kwds=None):
         return fn(*args, **(kwds or {}))
+
+
+class SymPathosPool(SymPool):
+    """pathos.multiprocessing.ProcessingPool: pathos keeps the pool of a given size in a process-wide cache, so a later
+    ``ProcessingPool()`` hands back the *same worker processes*, forked when the first one was created.  Those workers see
+    the module globals as they were at that fork, not what the parent assigned since.  Modelled: the first creation
+    (after the cache is empty) takes a deep snapshot of the data bound at module level in the repository's modules;
+    tasks run with those bindings restored, the parent's bindings come back afterwards.  clear() empties the cache;
+    close() without clear() leaves a closed pool in the cache, which the next ProcessingPool() returns (its use then
+    raises ValueError('Pool not running'), as pathos does)."""
+    cache = {}          # 'snapshot': {module dict id: (module dict, {name: value})}, 'closed': bool
+    modules = []        # repository module dicts, set by patch.Patched
+
+    @classmethod
+    def reset_cache(cls):
+        cls.cache = {}
+
+    def __init__(self, *a, **k):
+        super().__init__(*a, **k)
+        c = SymPathosPool.cache
+        if 'snapshot' not in c:
+            import copy
+            snap = {}
+            for d in SymPathosPool.modules:
+                vals = {}
+                for name, v in list(d.items()):
+                    if name.startswith('__') or not SymPathosPool._is_data(v):
+                        continue
+                    try:
+                        vals[name] = copy.deepcopy(v)
+                    except Exception:
+                        vals[name] = v
+                snap[id(d)] = (d, vals)
+            c['snapshot'] = snap
+            c['closed'] = False
+
+    @staticmethod
+    def _is_data(v):
+        import numpy as _np
+        return isinstance(v, (type(None), bool, int, float, complex, str, bytes, tuple, frozenset, list, dict, set, _np.ndarray))
+
+    def close(self):
+        SymPathosPool.cache['closed'] = True
+
+    def clear(self):
+        SymPathosPool.cache = {}
+
+    def restart(self, force=False):
+        SymPathosPool.cache = {}
+        SymPathosPool.__init__(self)
+
+    def _run(self, fn, iterable, what, chunksize=1):
+        c = SymPathosPool.cache
+        if c.get('closed'):
+            raise ValueError('Pool not running')
+        snap = c.get('snapshot') or {}
+        saved = []
+        for d, vals in snap.values():
+            for name, v in vals.items():
+                saved.append((d, name, d.get(name, _MISSING)))
+                d[name] = v
+            # data names the parent created after the fork do not exist on the worker's side
+        try:
+            return super()._run(fn, iterable, what, chunksize)
+        finally:
+            for d, name, old in reversed(saved):
+                if old is _MISSING:
+                    d.pop(name, None)
+                else:
+                    d[name] = old
+
+
+_MISSING = object()
 
 
 class MultiprocessingFacade:
